@@ -4,13 +4,13 @@
 #  the patch applies, the 286 tests pass with it, the demo fails with it and passes without it;
 # then runs the given checks against it.  On success copies it to /verif/seeded/<name>/.
 SRC="$1"; NAME="$2"; shift 2
-W=/tmp/vpl-seedcheck
+W=${SEEDW:-/tmp/vpl-seedcheck}
 [ -d $W ] || git -C /repo worktree add -q --detach $W HEAD
 git -C $W reset -q --hard "$(git -C /repo rev-parse HEAD)"; git -C $W clean -qfd
-echo "--- demo on unchanged tree"; PYTHONPATH=$W /venv/bin/python -B "$SRC/out/demo.py" >/tmp/seed_demo0.txt 2>&1; d0=$?; echo "exit $d0"
+echo "--- demo on unchanged tree"; PYTHONPATH=$W /venv/bin/python -B "$SRC/out/demo.py" >/tmp/seed_demo0_$NAME.txt 2>&1; d0=$?; echo "exit $d0"
 git -C $W apply "$SRC/out/patch.diff" || { echo "PATCH DOES NOT APPLY"; exit 9; }
 echo "--- tests with change"; t=$(cd $W && PYTHONPATH=$W /venv/bin/python -B -m pytest -q -p no:cacheprovider --timeout=900 2>&1 | tail -1); echo "$t"
-echo "--- demo on changed tree"; PYTHONPATH=$W /venv/bin/python -B "$SRC/out/demo.py" >/tmp/seed_demo1.txt 2>&1; d1=$?; echo "exit $d1"; tail -3 /tmp/seed_demo1.txt | cut -c1-300
+echo "--- demo on changed tree"; PYTHONPATH=$W /venv/bin/python -B "$SRC/out/demo.py" >/tmp/seed_demo1_$NAME.txt 2>&1; d1=$?; echo "exit $d1"; tail -3 /tmp/seed_demo1_$NAME.txt | cut -c1-300
 ok=1; [ $d0 -eq 0 ] || ok=0; [ $d1 -ne 0 ] || ok=0; echo "$t" | grep -q "286 passed" || ok=0
 echo "CONFIRMED=$ok"
 for c in "$@"; do
